@@ -88,6 +88,11 @@ CombProps(e) ==
               /\ (okv => e.joined.some /\ e.joined.x = JoinCombined(exp.v))
               /\ ((okv /\ CombinedInvertible(exp.v)) => (e.inverse.ns = exp.v.ns /\ e.inverse.name = exp.v.name)),
       C04 |-> (okv => Valid(e.out.v))]
+\* a qualifier collection content the specification did not predict: is it at least a well-formed collection?
+QvecProps(e) ==
+  LET ok == /\ QSorted(e.post)
+            /\ \A i \in 1..Len(e.post) : ValidKey(e.post[i][1]) /\ e.post[i][1] = ALowerS(e.post[i][1])
+  IN [C04 |-> ok, C11 |-> ok]
 \* combined_name() of a parsed typed PURL and the constructor applied to it (inverse law of C18)
 CombInvProps(e) ==
   IF "panic" \in DOMAIN e THEN [C06 |-> FALSE] ELSE
@@ -110,6 +115,7 @@ Props(e) == CASE e.ev = "value" -> ValueProps(e)
               [] e.ev = "comb" -> CombProps(e)
               [] e.ev = "pair" -> PairProps(e)
               [] e.ev = "combinv" -> CombInvProps(e)
+              [] e.ev = "qvec" -> QvecProps(e)
               [] OTHER -> [TOOL |-> FALSE]
 FailedProps(e) == LET p == Props(e) IN {k \in DOMAIN p : ~p[k]}
 EventOk(e) == FailedProps(e) = {}
